@@ -170,13 +170,14 @@ type Bounds struct {
 	Fn      *ssa.Function
 	IntBits int
 	zones   map[*ssa.BasicBlock]*Zone
+	zonesAt map[ssa.Instruction]*Zone
 	// Opaque records values whose arithmetic may wrap in a narrow type (reported by rule R2).
 	Opaque map[ssa.Value]string
 	stable [][]ssa.Value
 }
 
 func NewBounds(fn *ssa.Function, intBits int) *Bounds {
-	return &Bounds{Fn: fn, IntBits: intBits, zones: map[*ssa.BasicBlock]*Zone{}, Opaque: map[ssa.Value]string{}}
+	return &Bounds{Fn: fn, IntBits: intBits, zones: map[*ssa.BasicBlock]*Zone{}, zonesAt: map[ssa.Instruction]*Zone{}, Opaque: map[ssa.Value]string{}}
 }
 
 func (b *Bounds) typeRange(t types.Type) (int64, int64, bool) {
@@ -267,9 +268,18 @@ func lenTerm(x ssa.Value) (Term, int64, bool) {
 	return zero, 0, false
 }
 
-// zoneAt builds (and caches) the facts valid throughout block blk.
+// zoneAt builds the facts valid throughout block blk (used for whole-block queries: every
+// partial-operation fact of the block's own instructions is left out).
 func (b *Bounds) zoneAt(blk *ssa.BasicBlock) *Zone {
-	if z, ok := b.zones[blk]; ok {
+	return b.zoneBefore(blk, blk.Instrs[0])
+}
+
+// zoneBefore builds (and caches) the facts valid just before instruction `before` of block blk.
+// Facts that hold only because a partial operation succeeded (the length relation of a slice
+// expression) are used only when that operation strictly dominates `before` - never to prove the
+// operation's own precondition.
+func (b *Bounds) zoneBefore(blk *ssa.BasicBlock, before ssa.Instruction) *Zone {
+	if z, ok := b.zonesAt[before]; ok {
 		return z
 	}
 	z := newZone()
@@ -331,7 +341,9 @@ func (b *Bounds) zoneAt(blk *ssa.BasicBlock) *Zone {
 				}
 			}
 		case *ssa.Slice:
-			b.sliceFacts(z, t)
+			if InstrDominates(t, before) {
+				b.sliceFacts(z, t)
+			}
 		case *ssa.Convert:
 			if isIntVal(t) && isIntVal(t.X) {
 				alo, ahi, ok1 := b.typeRange(t.X.Type())
@@ -440,7 +452,7 @@ func (b *Bounds) zoneAt(blk *ssa.BasicBlock) *Zone {
 		}
 	}
 	z.close()
-	b.zones[blk] = z
+	b.zonesAt[before] = z
 	return z
 }
 
@@ -922,7 +934,7 @@ func (b *Bounds) Sites(filter ElemFilter) []BoundsSite {
 					need, arg = 8, t.Call.Args[1]
 				}
 				if need > 0 {
-					z := b.zoneAt(blk)
+					z := b.zoneBefore(blk, in)
 					lt, off, ok := lenTerm(arg)
 					s := BoundsSite{Instr: in, Kind: "call", Expr: fmt.Sprintf("%s needs len(%s) >= %d", CallName(t), arg.Name(), need)}
 					if z.infeasible() {
@@ -941,7 +953,7 @@ func (b *Bounds) Sites(filter ElemFilter) []BoundsSite {
 }
 
 func (b *Bounds) proveIndex(in ssa.Instruction, x, idx ssa.Value) BoundsSite {
-	z := b.zoneAt(in.Block())
+	z := b.zoneBefore(in.Block(), in)
 	s := BoundsSite{Instr: in, Kind: "index", Expr: fmt.Sprintf("%s[%s]", x.Name(), valName(idx))}
 	if z.infeasible() {
 		s.OK = true
@@ -981,7 +993,7 @@ func valName(v ssa.Value) string {
 }
 
 func (b *Bounds) proveSlice(t *ssa.Slice) BoundsSite {
-	z := b.zoneAt(t.Block())
+	z := b.zoneBefore(t.Block(), t)
 	lo, hi := "", ""
 	if t.Low != nil {
 		lo = valName(t.Low)
@@ -1284,4 +1296,21 @@ func (b *Bounds) stableFieldLoads() [][]ssa.Value {
 		}
 	}
 	return b.stable
+}
+
+// Debug prints the zone of a block.
+func (b *Bounds) Debug(blk *ssa.BasicBlock) {
+	z := b.zoneAt(blk)
+	fmt.Println("infeasible:", z.infeasible())
+	for i, t := range z.terms {
+		lo, hi := z.bounds(t)
+		fmt.Printf("%d %s [%s,%s]\n", i, t, fmtB(lo), fmtB(hi))
+	}
+	for i := range z.terms {
+		for j := range z.terms {
+			if i != j && z.d[i][j] < inf && i != 0 && j != 0 {
+				fmt.Printf("  %s - %s <= %d\n", z.terms[i], z.terms[j], z.d[i][j])
+			}
+		}
+	}
 }
